@@ -838,6 +838,13 @@ fn stage_catalogue(t: Tier) -> Vec<StageCase> {
     }
     hostile_parts.push(vec![0xFF; 70]);
     hostile_parts.push(vec![0x00; 70]);
+    // a perfectly well-formed READY announcing each of the twelve socket types of RFC 23 (among
+    // them the ones this crate never announces itself: PAIR, XSUB, STREAM), with and without an
+    // identity: whatever the local type, the answer is "admitted" or "refused", never a crash
+    for name in crate::props::c04::TYPE_NAMES {
+        hostile_parts.push(refcodec::encode_ready(name, None));
+        hostile_parts.push(refcodec::encode_ready(name, Some(b"id")));
+    }
     hostile_parts.push(hostile::valid_greeting());
     for gv in hostile::greeting_variants() {
         let mut s = gv;
